@@ -419,4 +419,125 @@ example : (Lib.take exArr (.tuple exIx) {}).toOption.map (fun r => (r.dims, r.va
     simp [exArr] at hax
     rcases hax with rfl | rfl <;> simp
 
+
+/-! ### tolerance (round 2): "the nearest label is used if and only if it lies within the tolerance" -/
+
+/-- distance of the request `q` to the label at position `i` -/
+def tolDist (qs : List Rat) (q : Rat) (i : Nat) : Rat := ratAbs (qs.getD i 0 - q)
+
+/-- TOLERANCE, success: the position returned is the first of the nearest labels, and that label lies within
+the tolerance -/
+theorem locateOne_tol_ok (L : List Label) (v : Label) (t : Tol) (q : Rat) (qs : List Rat) (m : Nat)
+    (hv : v.toRat? = some q) (hL : L.mapM Label.toRat? = some qs)
+    (h : locateOne L v (some t) = .ok m) :
+    m < qs.length ∧ (∀ i, i < qs.length → tolDist qs q m ≤ tolDist qs q i) ∧
+      (∀ i, i < m → tolDist qs q m < tolDist qs q i) ∧ t.ge (tolDist qs q m) = true := by
+  by_cases hne : qs = []
+  · subst hne
+    rw [locateOne_tol_empty L v t q hv hL] at h
+    cases h
+  · rw [locateOne_tol_unfold L v t q qs hv hL hne] at h
+    obtain ⟨h1, h2, h3⟩ := argminRat_dist_spec qs q hne
+    split at h
+    · rename_i hge
+      cases h
+      exact ⟨h1, h2, h3, hge⟩
+    · cases h
+
+/-- TOLERANCE, refusal: IndexError exactly when no label lies within the tolerance (on a non-empty axis) -/
+theorem locateOne_tol_error (L : List Label) (v : Label) (t : Tol) (q : Rat) (qs : List Rat)
+    (hv : v.toRat? = some q) (hL : L.mapM Label.toRat? = some qs) (hne : qs ≠ []) :
+    (locateOne L v (some t) = .error .index ↔ ∀ i, i < qs.length → t.ge (tolDist qs q i) = false) ∧
+    ((∃ m, locateOne L v (some t) = .ok m) ∨ locateOne L v (some t) = .error .index) := by
+  rw [locateOne_tol_unfold L v t q qs hv hL hne]
+  obtain ⟨h1, h2, _⟩ := argminRat_dist_spec qs q hne
+  by_cases hge : t.ge (tolDist qs q (argminRat (qs.map (fun x => ratAbs (x - q))))) = true
+  · have hge' := hge
+    unfold tolDist at hge'
+    rw [if_pos hge']
+    refine ⟨⟨fun h => (by cases h), fun h => ?_⟩, Or.inl ⟨_, rfl⟩⟩
+    have := h _ h1
+    rw [hge] at this
+    cases this
+  · have hge' := hge
+    unfold tolDist at hge'
+    rw [if_neg hge']
+    refine ⟨⟨fun _ i hi => ?_, fun _ => rfl⟩, Or.inr rfl⟩
+    cases hgi : t.ge (tolDist qs q i) with
+    | false => rfl
+    | true => exact absurd (Tol.ge_mono t (h2 i hi) hgi) hge
+
+/-- with an infinite tolerance (`.nloc`) a numeric request on a non-empty numeric axis is never refused -/
+theorem locateOne_tol_inf (L : List Label) (v : Label) (q : Rat) (qs : List Rat)
+    (hv : v.toRat? = some q) (hL : L.mapM Label.toRat? = some qs) (hne : qs ≠ []) :
+    ∃ m, locateOne L v (some .inf) = .ok m := by
+  rw [locateOne_tol_unfold L v .inf q qs hv hL hne]
+  exact ⟨_, if_pos rfl⟩
+
+/-- an exact request is found at its own position whatever the tolerance (labels unique) -/
+theorem locateOne_tol_exact (L : List Label) (v : Label) (t : Tol) (q : Rat) (qs : List Rat)
+    (hv : v.toRat? = some q) (hL : L.mapM Label.toRat? = some qs) (hn : qs.Nodup) (hmem : q ∈ qs)
+    (ht : t.ge 0 = true) :
+    locateOne L v (some t) = .ok (qs.idxOf q) := by
+  have hne : qs ≠ [] := List.ne_nil_of_mem hmem
+  rw [locateOne_tol_unfold L v t q qs hv hL hne]
+  obtain ⟨h1, h2, _⟩ := argminRat_dist_spec qs q hne
+  have hk : qs.idxOf q < qs.length := List.idxOf_lt_length_of_mem hmem
+  have hdk : ratAbs (qs.getD (qs.idxOf q) 0 - q) = 0 := by
+    rw [List.getD_eq_getElem?_getD, List.getElem?_eq_getElem hk, Option.getD_some,
+      List.getElem_idxOf hk]
+    exact ratAbs_sub_self q
+  have hle := h2 _ hk
+  rw [hdk] at hle
+  have hqm : qs.getD (argminRat (qs.map (fun x => ratAbs (x - q)))) 0 = q := ratAbs_sub_le_zero hle
+  have hmk : argminRat (qs.map (fun x => ratAbs (x - q))) = qs.idxOf q := by
+    rw [List.getD_eq_getElem?_getD, List.getElem?_eq_getElem h1, Option.getD_some] at hqm
+    apply (List.getElem_inj hn).mp
+    rw [hqm, List.getElem_idxOf hk]
+  have hz : ratAbs (qs.getD (argminRat (qs.map (fun x => ratAbs (x - q)))) 0 - q) = 0 := by
+    rw [hqm]; exact ratAbs_sub_self q
+  rw [hz, ht, hmk]
+  rfl
+
+/-- lists under a tolerance are located element by element (requested order, repeats allowed), and refused as
+soon as one element has no label within the tolerance -/
+theorem loc_list_tol (L : List Label) (kind : Kind) (vs : List Label) (t : Tol) (hk : kind.isNumeric = true) :
+    loc L kind (.list vs) (some t) =
+      (vs.mapM (fun v => locateOne L v (some t))).map (fun ps => RawIx.ints (ps.map Int.ofNat)) := by
+  unfold loc
+  simp only [hk, if_true]
+  cases vs.mapM (fun v => locateOne L v (some t)) <;> rfl
+
+/-! non-vacuity: axis labels `10, 3, 7` (unsorted). -/
+
+/-- request `6` with tolerance `1`: label `7` at position 2 is the nearest (distances `4, 3, 1`) and
+lies within the tolerance; the hypotheses of `locateOne_tol_ok` hold and give its conclusion. -/
+example : locateOne [.num 10, .num 3, .num 7] (.num 6) (some (.fin 1)) = .ok 2 ∧
+    (2 < ([10, 3, 7] : List Rat).length ∧
+      (∀ i, i < ([10, 3, 7] : List Rat).length → tolDist [10, 3, 7] 6 2 ≤ tolDist [10, 3, 7] 6 i) ∧
+      (∀ i, i < 2 → tolDist [10, 3, 7] 6 2 < tolDist [10, 3, 7] 6 i) ∧
+      (Tol.fin 1).ge (tolDist [10, 3, 7] 6 2) = true) := by
+  have h : locateOne [.num 10, .num 3, .num 7] (.num 6) (some (.fin 1)) = .ok 2 := by
+    rw [locateOne_tol_unfold _ _ _ 6 [10, 3, 7] rfl rfl (by simp)]
+    simp only [argminRat, argminRat.go, ratAbs, List.map, Tol.ge]
+    grind
+  exact ⟨h, locateOne_tol_ok _ _ _ 6 [10, 3, 7] 2 rfl rfl h⟩
+
+/-- request `5` with tolerance `2`: labels `3` and `7` tie (distances `5, 2, 2`); the first one wins
+(`np.argmin`). -/
+example : locateOne [.num 10, .num 3, .num 7] (.num 5) (some (.fin 2)) = .ok 1 := by
+  rw [locateOne_tol_unfold _ _ _ 5 [10, 3, 7] rfl rfl (by simp)]
+  simp only [argminRat, argminRat.go, ratAbs, List.map, Tol.ge]
+  grind
+
+/-- request `5` with tolerance `1`: no label within the tolerance, `IndexError`; the hypotheses of
+`locateOne_tol_error` hold and its first conjunct says that every label is out of tolerance. -/
+example : locateOne [.num 10, .num 3, .num 7] (.num 5) (some (.fin 1)) = .error .index ∧
+    (∀ i, i < ([10, 3, 7] : List Rat).length → (Tol.fin 1).ge (tolDist [10, 3, 7] 5 i) = false) := by
+  have h : locateOne [.num 10, .num 3, .num 7] (.num 5) (some (.fin 1)) = .error .index := by
+    rw [locateOne_tol_unfold _ _ _ 5 [10, 3, 7] rfl rfl (by simp)]
+    simp only [argminRat, argminRat.go, ratAbs, List.map, Tol.ge]
+    grind
+  exact ⟨h, (locateOne_tol_error _ _ (.fin 1) 5 [10, 3, 7] rfl rfl (by simp)).1.mp h⟩
+
 end DimModel
